@@ -93,7 +93,8 @@ def run_tlc(work, module, cfg=None, constants=None, dump=True, workers=16, timeo
         lines.append("CHECK_DEADLOCK %s" % ("TRUE" if deadlock else "FALSE"))
         with open(os.path.join(work, cfg), "w") as f:
             f.write("\n".join(lines) + "\n")
-    cmd = ["java", "-XX:+UseParallelGC", "-Xmx24g", "-Xss64m", "-cp", TLA_JAR, "tlc2.TLC",
+    os.makedirs(os.path.join(work, "jtmp"), exist_ok=True)      # (TLC leaves a tlc-<n> directory per run in java.io.tmpdir)
+    cmd = ["java", "-XX:+UseParallelGC", "-Xmx24g", "-Xss64m", "-Djava.io.tmpdir=" + os.path.join(work, "jtmp"), "-cp", TLA_JAR, "tlc2.TLC",
            "-workers", str(workers), "-metadir", os.path.join(work, "meta_" + module),
            "-noGenerateSpecTE", "-config", cfg]
     dump_path = None
